@@ -7,8 +7,6 @@ use derive_more::From;
 
 use smallvec::{smallvec, SmallVec};
 
-use unchecked_unwrap::UncheckedUnwrap;
-
 use crate::{
     analysis::visit::{self, Combine, Visit, VisitExpr},
     exec::{
@@ -74,7 +72,7 @@ macro_rules! lookup_or_create {
         if let Ok(var) = $e.lookup_var_mut($name) {
             var
         } else {
-            unsafe { $e.create_var($name).unchecked_unwrap() }
+            $e.create_var($name)?
         }
     };
 }
